@@ -50,3 +50,9 @@ package altair
 //@   requires sc != nil
 //@   assigns heap(CachedPubkey.decompressed)
 //@   ensures (err == nil) == contrib_sig_ok(gvver, spec, subcommitteePubkeys, *sc)
+
+// SyncCommitteeSubnetBits is a bitvector: its participant count is the number of set bits (bv_count), no delimiter.
+//@ func (li SyncCommitteeSubnetBits) OnesCount() r
+//@   property C12
+//@   opt noalloc
+//@   ensures r == bv_count(li)
